@@ -36,6 +36,7 @@ type Config struct {
 	AutoDefault    bool   `json:"autodefault,omitempty"` // automatic compactions on with Pebble's DEFAULT thresholds (no forced L0 compaction)
 	TinyLBase      bool   `json:"tinylbase,omitempty"`   // LBaseMaxBytes=1 with MANUAL compactions only: data comes to rest in intermediate levels
 	DelOnlyExcise  bool   `json:"delonlyexcise,omitempty"` // delete-only compactions may excise the covered prefix/suffix of a table
+	NoSyncOnClose  bool   `json:"nosynconclose,omitempty"` // Options.NoSyncOnClose
 	DeepQueue      bool   `json:"deepqueue,omitempty"`     // MemTableStopWritesThreshold 1000: held flushes never stall writers
 	SharedCaches   bool   `json:"sharedcaches,omitempty"` // the harness passes its own block cache and file cache (kept referenced across Close)
 }
@@ -80,6 +81,9 @@ func (c Config) Options(fs vfs.FS) *pebble.Options {
 	}
 	if c.DeepQueue {
 		o.MemTableStopWritesThreshold = 1000
+	}
+	if c.NoSyncOnClose {
+		o.NoSyncOnClose = true
 	}
 	if c.DelOnlyExcise {
 		o.EnableDeleteOnlyCompactionExcises = func() bool { return true }
